@@ -77,6 +77,7 @@ def gen(tier, rng):
     for kind in KINDS:
         for v in variants:
             out.append((http_line(v, kind, False, 0, None, b""), "transport-error"))
+            out.append((http_line(v, kind, True, 0, b"application/json", ("connection reset by peer %s/%s" % (kind, v)).encode()), "transport-error"))
     return out
 
 
